@@ -111,4 +111,54 @@ theorem ex_E_not_emitted : ∀ R, reachable exDeps [nA] = some R → nE ∉ R :=
   cases h
   decide
 
+/-! ## duplicate response enums: one survivor per response signature, removed by index in descending order
+(`postprocess/response_enum.rs::compute_replacements`) -/
+
+/-- removing in-range indices in strictly descending order removes exactly one element per index -/
+theorem removeIdxs_length {α : Type} (idxs : List Nat) (l : List α)
+    (hd : idxs.Pairwise (· > ·)) (hr : ∀ i ∈ idxs, i < l.length) :
+    (removeIdxs idxs l).length = l.length - idxs.length := by
+  induction idxs generalizing l with
+  | nil => simp [removeIdxs]
+  | cons i is ih =>
+    have hi : i < l.length := hr i (List.mem_cons_self ..)
+    rw [List.pairwise_cons] at hd
+    have hlen : (l.eraseIdx i).length = l.length - 1 := by rw [List.length_eraseIdx]; simp [hi]
+    have := ih (l.eraseIdx i) hd.2 (by
+      intro j hj
+      have h1 := hd.1 j hj
+      rw [hlen]; omega)
+    show (removeIdxs is (l.eraseIdx i)).length = _
+    rw [this, hlen]; simp; omega
+
+/-- every signature keeps exactly its canonical enum: the survivor of a group is a member of the group -/
+theorem canonicalOf_mem : ∀ (l : List Name) (n : Name), canonicalOf l = some n → n ∈ l := by
+  intro l
+  induction l with
+  | nil => intro n h; cases h
+  | cons a r ih =>
+    intro n h
+    unfold canonicalOf at h
+    cases hc : canonicalOf r with
+    | none => rw [hc] at h; cases h; exact List.mem_cons_self ..
+    | some m =>
+      rw [hc] at h
+      simp only [] at h
+      split at h
+      · cases h; exact List.mem_cons_self ..
+      · cases h; exact List.mem_cons_of_mem _ (ih _ hc)
+
+theorem canonicalOf_some (l : List Name) (h : l ≠ []) : (canonicalOf l).isSome = true := by
+  cases l with
+  | nil => exact absurd rfl h
+  | cons a r => unfold canonicalOf; cases canonicalOf r <;> simp <;> split <;> rfl
+
+def a5 : List Char := "abcde".toList
+/-- descending order (what the generator does): the two named elements go -/
+theorem ex_remove_desc : removeIdxs [3, 1] a5 = "ace".toList := by decide
+/-- group by group (ascending across groups): the element AFTER the second duplicate is deleted instead -/
+theorem cex_remove_group_order : removeIdxs [1, 3] a5 = "acd".toList := by decide
+
+def exOps : List (Name × Name) := [("OpaResponse".toList, "Beta".toList), ("OpbResponse".toList, "Alpha".toList), ("OpcResponse".toList, "Beta".toList), ("OpdResponse".toList, "Alpha".toList), ("Op10Response".toList, "Beta".toList)]
+theorem ex_survivors : dedupSurvivors exOps = ["OpaResponse".toList, "OpbResponse".toList] := by decide
 end Oas3.Props.C07
